@@ -29,3 +29,5 @@ mod c11;
 mod c20;
 #[cfg(kani)]
 mod c11gen;
+#[cfg(kani)]
+mod c12;
